@@ -171,6 +171,11 @@ WITNESSES = [
 ]
 
 
+import findings  # noqa: E402
+for _fn, _fi, _fb in findings.C17_FORMAT:
+    BOUNDED.append({"name": _fn, "kind": "format-corpus", "props": ["C17"], "input": [_fi], "n_inputs": 1, "timeout": 60, "bound": _fb + ": the formatted text parses to the same syntax tree with the same comments", "expect": {}})
+
+
 def build(tier):
     u = UnitFile("fmtedits")
     u.raw(common.HEADER)
